@@ -17,7 +17,7 @@ let variant : RelEdit.variant =
     let f n = if n = name then only else not only in
     { fx_insert_first = f "insert-first"; fx_append_sep = f "append-sep"; fx_pipe = f "pipe";
       fx_mut_root = f "mut-root"; fx_add_profile = f "add-profile"; fx_entry_push = f "entry-push";
-      fx_builder_archs = f "builder-archs"; fx_version_pos = f "version-pos"; fx_remove_last = f "remove-last" }
+      fx_builder_archs = f "builder-archs"; fx_version_pos = f "version-pos"; fx_remove_last = f "remove-last"; fx_first_substvar = f "first-substvar"; fx_replace_ws = f "replace-ws" }
 
 let u = str_of_hex
 let nat s = nat_of_int (int_of_string s)
@@ -114,7 +114,10 @@ let state_s (dump : bool) (st : state) : string =
     let relaxed = (match RelParse.parse_relaxed tx true with Ok (t', n) -> (t', n = Datatypes.O)
                                                             | Err _ -> raise (Stop "ERR") | Panic _ -> raise (Stop "PANIC") | OutOfFuel -> raise (Stop "HANG")) in
     let flags = bool_s strict ^ bool_s (snd relaxed) in
-    if dump then Printf.sprintf "%s:%s:%s:%s" (hx tx) flags (structure_s t) (structure_s (fst relaxed))
+    if dump then
+      let et = L.map (fun e -> let x = text e in if x = [] then "_" else hx x) (RelEdit.entries t) in
+      let et = if et = [] then "-" else cat "." et in
+      Printf.sprintf "%s:%s:%s:%s:%s" (hx tx) flags (structure_s t) (structure_s (fst relaxed)) et
     else Printf.sprintf "%s:%s" (hx tx) flags
   | Err _ -> raise (Stop "MODEL-ERR") | Panic _ -> raise (Stop "PANIC") | OutOfFuel -> raise (Stop "HANG")
 
@@ -158,7 +161,7 @@ let replace_all (s : string) (a : string) (b : string) : string =
 
 let rel_edit (fs : string list) : string =
   match fs with
-  | dump :: init :: progs ->
+  | dump :: init :: _note :: progs ->
     let runs = L.mapi (fun i p ->
         let r = run (dump = "1") init p in
         replace_all (replace_all r "init=" (Printf.sprintf "i%d=" i)) "steps=" (Printf.sprintf "s%d=" i)) progs in
